@@ -128,6 +128,7 @@ def _work(spec):
     pid, tier, verif_seed, arm, start, n, want_digests = spec
     faulthandler.dump_traceback_later(3600, exit=True)
     chk = load_check(pid)
+    chk.worker_init()
     kf = known.load()
     agg = Agg()
     per_class = Counter()
@@ -241,6 +242,8 @@ def run_check(pid, tier, seed, budget_s=None, workers=None, digests_out=None, st
 
     def process_violations():
         # ---- violations
+        if agg.viol:
+            chk.worker_init()
         by_class = {}
         for arm, i, rs, v, case in sorted(agg.viol, key=lambda x: (x[0], x[1], x[3]["oracle"], x[3]["site"])):
             by_class.setdefault(core.vclass(v), (arm, i, rs, v, case))
@@ -412,6 +415,7 @@ def replay(pid, path):
     upto = next((gi for gi, g in enumerate(groups) if g is not None and case.get("arm") in g), len(groups) - 1)
     for gi in range(upto + 1):
         chk.preload_group(gi)
+    chk.worker_init()
     want = (case["violation"]["oracle"], case["violation"]["site"])
     res = execute_case(chk, case)
     kf = known.load()
